@@ -480,5 +480,25 @@ theorem store_harness_depends_on_previous_context_counterexample :
 theorem disabled_context_draws_nothing {σ} (S : Sampler σ) (p : Nat) (g : σ) :
     storeDecision S { enabled := false } p g = .ok (false, g) := rfl
 
+/-! ### the WAL DST model: what recovery yields from a file of items -/
+
+/-- a file whose header was not written completely (empty, or a strict prefix) yields nothing;
+    a complete header followed by entries yields them up to the first partial item — the
+    item-level reading of C10 `entries_of_prefix` the WAL harness model rests on -/
+theorem wal_recover_file_table (a b c : Nat) :
+    recoverFile { items := [] } = [] ∧
+    recoverFile { items := [.prefix] } = [] ∧
+    recoverFile { items := [.header] } = [] ∧
+    recoverFile { items := [.header, .entry a, .entry b] } = [a, b] ∧
+    recoverFile { items := [.header, .entry a, .prefix] } = [a] ∧
+    recoverFile { items := [.header, .prefix, .entry c] } = [] := by
+  simp [recoverFile]
+
+/-- a crash keeps exactly the durable items of every file, file by file (the real code iterates
+    `files.values_mut()` of a `HashMap`: no file's truncation depends on another file) -/
+theorem wal_crash_pointwise (w : Wal) :
+    (wCrash.run w).toOption.map (fun r => r.2.files) =
+      some (w.files.map fun f => { f with items := f.items.take f.synced }) := rfl
+
 end C20
 end RedisVerif
